@@ -315,12 +315,13 @@ def _wc_value(ex, env):
 
 
 _WC_KINDS = (('ComponentPresentConstraint', ('AbstractConstraint',)), ('ComponentAbsentConstraint', ('AbstractConstraint',)),
-             ('ConstraintsUnion', ('AbstractConstraintSet', 'AbstractConstraint')), ('ValueRangeConstraint', ('AbstractConstraint',)))
+             ('ConstraintsUnion', ('AbstractConstraintSet', 'AbstractConstraint')), ('ValueRangeConstraint', ('AbstractConstraint',)),
+             ('ConstraintsExclusion', ('AbstractConstraint',)))
 
 
 def _wc_self(ex, env):
     kind = 3
-    for k in range(3):
+    for k in (0, 1, 2, 4):
         if ex.choose(Bool('constraint.kind%d' % k), 'kind-%s' % _WC_KINDS[k][0]):
             kind = k
             break
@@ -347,7 +348,8 @@ WITH_COMPONENTS = Contract(
     globals={'member_stored': Bool('member.stored'), 'member_isValue': Bool('member.isValue'), 'admits': Bool('constraint.admits'),
              'ComponentPresentConstraint': _ClassV('ComponentPresentConstraint'),
              'ComponentAbsentConstraint': _ClassV('ComponentAbsentConstraint'),
-             'AbstractConstraintSet': _ClassV('AbstractConstraintSet')},
+             'AbstractConstraintSet': _ClassV('AbstractConstraintSet'),
+             'ConstraintsExclusion': _ClassV('ConstraintsExclusion')},
     ensures=[
         # X.680 51.8: a value constraint on a component applies when the component is present; it is never shown "no value"
         ('value-constraints-see-present-members-only', '(log.isValueConstraint and not (%s)) ==> not log.called' % _present),
@@ -385,8 +387,8 @@ class _Entries(_RecSeqV):
             return None
 
         def isa(ex, self_, nm):
-            return WC_PRESENCE(cid) if nm in ('ComponentPresentConstraint', 'ComponentAbsentConstraint', 'AbstractConstraintSet') \
-                else False
+            return WC_PRESENCE(cid) if nm in ('ComponentPresentConstraint', 'ComponentAbsentConstraint', 'AbstractConstraintSet',
+                                              'ConstraintsExclusion') else False
         c = Obj('AbstractConstraint', {'__id__': cid}, {'__call__': call, '__isinstance__': isa},
                 name='constraint')
         return Tup([field, c])
@@ -426,6 +428,7 @@ WITH_COMPONENTS_N = Contract(
              'ComponentPresentConstraint': _ClassV('ComponentPresentConstraint'),
              'ComponentAbsentConstraint': _ClassV('ComponentAbsentConstraint'),
              'AbstractConstraintSet': _ClassV('AbstractConstraintSet'),
+             'ConstraintsExclusion': _ClassV('ConstraintsExclusion'),
              'error': {'ValueConstraintError': _ClassV('ValueConstraintError'), '__name__': 'error'}},
     requires=['len(fields) == len(constraints)'],
     loops={0: _Loop(index='k', invariant=['ok_upto(loop_seq, k)'])},
